@@ -86,9 +86,15 @@ def run(ctx):
         if cap == "realDomainSetCapacity":
             mc = re.search(r"const\s+realDomainSetCapacity\s*=\s*(\d+)", src)
             cap = mc.group(1) if mc else None
-    if not m or cap != "2048" or m.group(2).strip() != "0.001":
+    needs_update = []
+    if not m or cap is None or not cap.isdigit():
+        # the source-text check does not recognise the construction any more (renamed constant, helper …):
+        # nothing is known either way -> the check needs an update, that is not a violation
+        needs_update.append("cannot find `realDomainSet: bloom.NewWithEstimates(<n>, <p>)` with a literal or "
+                            "realDomainSetCapacity capacity in control/control_plane.go")
+    elif cap != "2048" or m.group(2).strip() != "0.001":
         ctx.report("the verified-name filter is not constructed as the model assumes (bloom.NewWithEstimates(2048, 0.001)): "
-                   + (m.group(0) if m else "constructor call not found"), {"file": "control/control_plane.go"})
+                   + m.group(0), {"file": "control/control_plane.go"})
 
     ops_l, impl_l = read_lines(ops), read_lines(impl)
     distinct = set()
@@ -101,7 +107,7 @@ def run(ctx):
         if " ORACLE:" in im:
             ctx.report("dial-target property violated by the implementation (independent of the model): "
                        + im.split(" ORACLE:", 1)[1] + f" on `{op}` -> `{im}`",
-                       {"op": op, "impl": im, "replay": "VERIF_SEED=%d ./check C18 %s" % (ctx.seed, ctx.tier)})
+                       {"op": op, "impl": im, "replay": "VERIF_SEED=%d ./check C18 %s  (the op stream is a function of the seed)" % (ctx.seed, ctx.tier)})
         if im.startswith("crash:"):
             ctx.report(f"real code panicked on `{op}`: {im}", {"op": op, "impl": im})
     # context for a mismatch: the episode prefix (ops since the last reset) makes the replay self-contained
@@ -125,14 +131,27 @@ def run(ctx):
         prefix = ops_l[max(start - 1, 0):ln] if op.split(" ", 1)[0] in ("cdt", "dial", "has", "look", "dns", "rm", "rmf", "evict", "reload", "close", "dnsresp") else [op]
         ctx.report(f"implementation differs from proved model at line {ln}: op `{op}` impl `{im}` model `{mo}`",
                    {"stream": "c18", "line": ln, "op": op, "impl": im, "model": mo, "episode": prefix[-60:],
-                    "replay": "VERIF_SEED=%d ./check C18 %s" % (ctx.seed, ctx.tier)})
+                    "replay": "VERIF_SEED=%d ./check C18 %s  (the op stream is a function of the seed)" % (ctx.seed, ctx.tier)})
     # config wiring: the mode parsed from global.dial_mode is the one stored in the control plane
     # (the `cfg` op executes text -> config_parser.Parse -> config.New -> ParseDialMode; the last hop,
     # a struct literal in newControlPlaneWithContextOptions, is checked in the source, rename-tolerant)
-    mv = re.search(r"(\w+),\s*err\s*:=\s*consts\.ParseDialMode\(global\.DialMode\)", src)
-    if not mv or not re.search(r"\bdialMode:\s+" + re.escape(mv.group(1)) + r"\s*,", src):
-        ctx.report("dial_mode wiring changed: control_plane.go no longer stores consts.ParseDialMode(global.DialMode) in "
-                   "controlPlaneGenerationState.dialMode", {"file": "control/control_plane.go"})
+    mv = re.search(r"(\w+)\s*,\s*\w+\s*:?=\s*consts\.ParseDialMode\(\s*[\w.]*DialMode\s*\)", src)
+    ml = re.search(r"\bdialMode:\s+([^,\n]+),", src)
+    if not mv or not ml:
+        needs_update.append("cannot find `<v>, err := consts.ParseDialMode(global.DialMode)` / the `dialMode:` field of the "
+                            "control plane literal in control/control_plane.go")
+    else:
+        var = mv.group(1)
+        between = src[mv.end():ml.start()]
+        # the stored value must be the parsed one: same variable (or one alias `x := var`), never re-assigned in between
+        alias = re.search(r"\b(\w+)\s*:=\s*" + re.escape(var) + r"\s*\n", between)
+        names = {var} | ({alias.group(1)} if alias else set())
+        reassigned = [n for n in names if re.search(r"(?<![\w.:=!<>])" + re.escape(n) + r"\s*=[^=]", between)]
+        if ml.group(1).strip() not in names or reassigned:
+            ctx.report("dial_mode wiring changed: the mode stored in controlPlaneGenerationState.dialMode is not (only) "
+                       "consts.ParseDialMode(global.DialMode)"
+                       + (": `%s` is re-assigned before it is stored" % reassigned[0] if reassigned else
+                          ": `dialMode: %s`" % ml.group(1).strip()), {"file": "control/control_plane.go"})
 
     stats = json.load(open(os.path.join(ctx.out, "c18.stats.json")))
     # generator floors (quick-tier values / ~4): below a floor the run proves nothing about that row -> exit 2
@@ -142,7 +161,9 @@ def run(ctx):
               "op.janitor.lru-evicted": 10, "op.cfg": 40, "dial.retried": 200, "dial.retried.different-decision": 10,
               "dial.with-metadata": 400, "dial.rerouted": 300, "op.dnsresp.nodata": 100, "op.dnsresp.error-rcode": 400,
               "op.rmf": 300, "op.evict": 200, "op.reload": 60, "op.close": 60, "probe.timeout-scripted": 100,
-              "op.sat": 1, "op.has.true": 200, "cdt.probe": 300}
+              "op.sat": 1, "op.has.true": 200, "cdt.probe": 300, "op.pipe-scenario": 50, "op.dnsresp.name-with-bar": 100,
+              "op.dns.name-with-bar": 100, "dial.refused-or-timeout": 200, "pick.udp.rerouted": 50,
+              "pick.udp.mode.domain": 100, "pick.udp.mode.ip": 30}
     low = {k: (stats["counters"].get(k, 0), v) for k, v in FLOORS.items() if stats["counters"].get(k, 0) < v}
     ctx.cov["floors"] = FLOORS
     ctx.samples = (stats["samples"] or []) + [o for o in ops_l if o.startswith(("cdt", "dial"))][:6] + ops_l[300:303]
@@ -153,6 +174,10 @@ def run(ctx):
         "NormalizeDomain / CanonicalName / the DNS cache are ASCII (bytes >= 0x80 only on the pure string paths)",
         "single-threaded histories: concurrency of the caches (sync.Map, RWMutex, singleflight) is not explored",
     ]
+    if needs_update and not ctx.violations:
+        ctx.say("CHECK-NEEDS-UPDATE (source-text checks of checks/c18.py do not recognise the code any more):", "; ".join(needs_update))
+        ctx.finish(rule="source-text check out of date", evaluations=len(ops_l), distinct=len(distinct))
+        return 2
     if low and not ctx.violations:
         ctx.say("GENERATOR-BELOW-FLOOR", json.dumps(low))
         ctx.finish(rule="generator below floor", evaluations=len(ops_l), distinct=len(distinct))
